@@ -5,6 +5,7 @@ from __future__ import annotations
 import ast
 
 from sa.astutil import (
+    loop_exits,
     arg_or_kw,
     call_name,
     calls_in,
@@ -250,7 +251,7 @@ def r4_accumulation_and_pairing(ctx):
     runs = stmt_calls(f, ctx.R, {"pyxel.exposure.exposure:run_pipeline"})
     ok = sdx is not None and isinstance(sdx, ast.Call) and dotted(sdx.func) == "self._get_simulated_data" and runs and norm(expand(lp, kw(sdx, "data"))).startswith("run_pipeline(")
     ctx.check(ok, f.qual + "#simulated-arg", "simulated data extracted from this pair's run" if ok else "simulated data does not come from this pair's run", where=f, node=c)
-    for br in walk_ordered(lp):
+    for br in loop_exits(lp):
         if isinstance(br, (ast.Break, ast.Continue, ast.Return)):
             ctx.fail(f.qual + "#exit", f"{type(br).__name__.lower()} inside the pair loop skips targets", where=f, node=br)
 
